@@ -96,18 +96,24 @@ static void ed_mul_fix_plain(ed_t r, const ed_t * t, const bn_t k) {
  * @param[in] t					- the precomputed table.
  * @param[in] k					- the integer.
  */
-static void ed_mul_combs_plain(ed_t r, const ed_t * t, const bn_t k) {
+static void ed_mul_combs_plain(ed_t r, const ed_t * t, const bn_t _k) {
 	int i, j, l, w, n0, p0, p1;
-	bn_t n;
+	bn_t n, k;
 
 	bn_null(n);
+	bn_null(k);
 
 	RLC_TRY {
 		bn_new(n);
+		bn_new(k);
 
 		ed_curve_get_ord(n);
 		l = bn_bits(n);
 		l = ((l % RLC_DEPTH) == 0 ? (l / RLC_DEPTH) : (l / RLC_DEPTH) + 1);
+
+		/* The comb only covers the bit length of the order. */
+		bn_abs(k, _k);
+		bn_mod(k, k, n);
 
 		n0 = bn_bits(k);
 
@@ -139,7 +145,7 @@ static void ed_mul_combs_plain(ed_t r, const ed_t * t, const bn_t k) {
 			}
 		}
 		ed_norm(r, r);
-		if (bn_sign(k) == RLC_NEG) {
+		if (bn_sign(_k) == RLC_NEG) {
 			ed_neg(r, r);
 		}
 	}
@@ -148,6 +154,7 @@ static void ed_mul_combs_plain(ed_t r, const ed_t * t, const bn_t k) {
 	}
 	RLC_FINALLY {
 		bn_free(n);
+		bn_free(k);
 	}
 }
 
@@ -185,21 +192,43 @@ void ed_mul_pre_basic(ed_t * t, const ed_t p) {
 }
 
 void ed_mul_fix_basic(ed_t r, const ed_t *t, const bn_t k) {
+	bn_t n, m;
+
 	if (bn_is_zero(k)) {
 		ed_set_infty(r);
 		return;
 	}
 
-	ed_set_infty(r);
+	bn_null(n);
+	bn_null(m);
 
-	for (int i = 0; i < bn_bits(k); i++) {
-		if (bn_get_bit(k, i)) {
-			ed_add(r, r, t[i]);
+	RLC_TRY {
+		bn_new(n);
+		bn_new(m);
+
+		/* The table only holds bn_bits(n) multiples of the point. */
+		ed_curve_get_ord(n);
+		bn_abs(m, k);
+		bn_mod(m, m, n);
+
+		ed_set_infty(r);
+
+		for (int i = 0; i < bn_bits(m); i++) {
+			if (bn_get_bit(m, i)) {
+				ed_add(r, r, t[i]);
+			}
+		}
+		ed_norm(r, r);
+		if (bn_sign(k) == RLC_NEG) {
+			ed_neg(r, r);
 		}
 	}
-	ed_norm(r, r);
-	if (bn_sign(k) == RLC_NEG) {
-		ed_neg(r, r);
+	RLC_CATCH_ANY {
+		RLC_THROW(ERR_CAUGHT);
+	}
+	RLC_FINALLY {
+		bn_free(n);
+		bn_free(m);
 	}
 }
 
@@ -301,16 +330,21 @@ void ed_mul_pre_combd(ed_t * t, const ed_t p) {
 	}
 }
 
-void ed_mul_fix_combd(ed_t r, const ed_t * t, const bn_t k) {
+void ed_mul_fix_combd(ed_t r, const ed_t * t, const bn_t _k) {
 	int i, j, d, e, w0, w1, n0, p0, p1;
-	bn_t n;
+	bn_t n, k;
 
 	bn_null(n);
+	bn_null(k);
 
 	RLC_TRY {
 		bn_new(n);
+		bn_new(k);
 
 		ed_curve_get_ord(n);
+		/* The comb only covers the bit length of the order. */
+		bn_abs(k, _k);
+		bn_mod(k, k, n);
 		d = bn_bits(n);
 		d = ((d % RLC_DEPTH) == 0 ? (d / RLC_DEPTH) : (d / RLC_DEPTH) + 1);
 		e = (d % 2 == 0 ? (d / 2) : (d / 2) + 1);
@@ -344,7 +378,7 @@ void ed_mul_fix_combd(ed_t r, const ed_t * t, const bn_t k) {
 			ed_add(r, r, t[(1 << RLC_DEPTH) + w1]);
 		}
 		ed_norm(r, r);
-		if (bn_sign(k) == RLC_NEG) {
+		if (bn_sign(_k) == RLC_NEG) {
 			ed_neg(r, r);
 		}
 	}
@@ -353,6 +387,7 @@ void ed_mul_fix_combd(ed_t r, const ed_t * t, const bn_t k) {
 	}
 	RLC_FINALLY {
 		bn_free(n);
+		bn_free(k);
 	}
 }
 
